@@ -1342,7 +1342,10 @@ void mcount_exit_filter_record(struct mcount_thread_data *mtdp, struct mcount_re
 
 			/* there's a possibility of overwriting by return value */
 			uftrace_match_filter(rstack->child_ip, &mcount_triggers->root, &tr);
+			/* reading /proc files is libc code: keep xmm0 for save_retval() below */
+			mcount_save_arch_context(&mtdp->arch);
 			save_trigger_read(mtdp, rstack, tr.read, true);
+			mcount_restore_arch_context(&mtdp->arch);
 		}
 
 		if (mcount_watchpoints)
